@@ -1157,7 +1157,8 @@ func (x *Exec) matchEvent(sc *specCtx, f ast.Expr, ev *Event) Term {
 			if ev.Method == "" && nameMatches(ev.Name, f.Sel.Name) && len(ev.Args) > 0 {
 				fa := x.flatten(ev.Args[0])
 				fb := x.flatten(base)
-				if _, isStruct := b.(StructV); isStruct && len(fa) == 1 {
+				_, recvIsPtr := ev.Args[0].(PtrV)
+				if _, isStruct := b.(StructV); isStruct && len(fa) == 1 && recvIsPtr {
 					// method with pointer receiver called on an addressable struct field: compare addresses
 					if ap, ok := x.evalAddr(sc, f.X); ok {
 						return eq(fa[0], x.ptrScalar(ap))
